@@ -19,6 +19,7 @@ func opName(op int) string {
 
 // PropDef describes how one property is decided.
 type PropDef struct {
+	Meta                                  func(tier string) []MetaSource // non-nil: decided through other properties\' jobs (write-set monitor)
 	ID                                    string
 	Title                                 string
 	Level                                 string
@@ -142,6 +143,12 @@ func asmUnclassified() []string {
 		}
 	}
 	return out
+}
+
+// MetaSource: take every Stride-th job of property ID.
+type MetaSource struct {
+	ID     string
+	Stride int
 }
 
 var props []*PropDef
@@ -381,6 +388,19 @@ func init() {
 		Outside:          []string{"JMP/JML/JSR/JSL/RTS/RTL/RTI/BRA/PLP (taken control transfers and flag restores: excluded by the statement)", "label-reference forms (same opcodes as the immediate branch forms; operands decided in C06)", "an AssumeREP/AssumeSEP that contradicts the CPU (a false statement by the caller)"},
 		Explanation:      "emitted bytes are copied into CPU memory at the emitter's base; after one real Step the CPU's next fetch address and width flags must equal the emitter's PC and tracked widths; conversely each immediate-operand method must be refused exactly on a width mismatch",
 		ConformanceQuick: 48, ConformanceThorough: 512,
+	})
+	props = append(props, &PropDef{
+		ID: "C18", Title: "Separate emulator, emitter and ROM instances never interfere across goroutines", Level: "other",
+		Meta: func(tier string) []MetaSource {
+			if tier == "thorough" {
+				return []MetaSource{{"C01", 1}, {"C02", 1}, {"C03", 1}, {"C04", 1}, {"C05", 1}, {"C06", 1}, {"C07", 1}, {"C09", 1}, {"C10", 1}, {"C11", 1}, {"C12", 1}, {"C13", 4}, {"C14", 1}, {"C15", 1}, {"C16", 4}, {"C17", 1}, {"C19", 1}}
+			}
+			return []MetaSource{{"C01", 4}, {"C02", 5}, {"C03", 1}, {"C04", 1}, {"C05", 1}, {"C06", 2}, {"C07", 1}, {"C09", 1}, {"C10", 4}, {"C11", 16}, {"C12", 8}, {"C13", 16}, {"C14", 4}, {"C15", 4}, {"C16", 32}, {"C17", 1}, {"C19", 8}}
+		},
+		Jobs:        func(tier string) []sym.Job { return nil },
+		Bounds:      []string{"the jobs of the other properties (quick: every k-th job per property, offset by VERIF_SEED; thorough: all), i.e. single steps of both CPUs for all opcodes, disassembly, CreateEmulator, RunUntil, every emitter method, Finalize, listings, Clone/Append, the mapping and colour functions, ROM/header code - each from symbolic inputs", "plus a syntactic scan of every repository function for stores through addresses derived from package-level variables"},
+		Outside:     []string{"thread interleavings are NOT explored (this technique cannot): the property is decided through the sufficient condition its own statement gives - the library keeps no mutable state outside caller-owned objects; goroutines that touch disjoint memory cannot influence each other under the Go memory model", "data races on objects the caller shares deliberately"},
+		Explanation: "write-set monitor: every store, map update, copy, append-in-place and delete executed on any feasible path of any job is checked against the set of objects reachable from the repository's package-level variables after initialisation; a write guarded by an infeasible condition is not flagged, a cache write reachable for some inputs is",
 	})
 	props = append(props, &PropDef{
 		ID: "C19", Title: "Emission is all-or-nothing at capacity; dry-run emitters track addresses equally", Level: "model_checking",
